@@ -3,7 +3,11 @@
 S=/verif/seeded/$1; P=$2; shift 2
 cd /repo || exit 9
 [ -z "$(git status --porcelain -- graphtage)" ] || { echo "repo dirty"; exit 9; }
-git apply $S/patch.diff 2>/dev/null || git apply --3way $S/patch.diff 2>/dev/null || patch -p1 -s --fuzz=3 < $S/patch.diff || { echo "patch does not apply"; git checkout -- .; exit 9; }
+if ! git apply $S/patch.diff 2>/dev/null; then
+  if ! patch -p1 -s --fuzz=3 --no-backup-if-mismatch < $S/patch.diff; then
+    echo "patch does not apply"; git checkout HEAD -- . ; git clean -fdq -- graphtage; exit 9
+  fi
+fi
 cd /verif; ./vf $P --tier ${TIER:-quick} "$@" > /tmp/try_$P.out 2> /tmp/try_$P.err; rc=$?
-cd /repo && git checkout -- . && git clean -fdq -- graphtage
+cd /repo && git checkout HEAD -- . && git clean -fdq -- graphtage
 echo "seed=$(basename $S) prop=$P exit=$rc"; grep -h "VIOLATION\|KNOWN" /tmp/try_$P.out | head -5; grep -h "^violation\|^\[" /tmp/try_$P.err | head -6
